@@ -57,6 +57,7 @@ type FuncContract struct {
 	MayPanic   bool
 	Trusted    bool // contract assumed, body not verified (listed as assumption)
 	NoSafety   bool
+	NoOverflow bool
 	Timeout    int
 	File       string
 	Line       int
@@ -99,7 +100,7 @@ type PkgContracts struct {
 	Raw     string
 }
 
-var kwRe = regexp.MustCompile(`^(import|func|property|requires|ensures|modifies|loop|may_panic|trusted|nosafety|timeout|spec|lemma|axiom|panics|table)\b`)
+var kwRe = regexp.MustCompile(`^(import|func|property|requires|ensures|modifies|loop|may_panic|trusted|nosafety|timeout|spec|lemma|axiom|panics|table|nooverflow)\b`)
 
 func parseContractFile(path string) (*PkgContracts, error) {
 	f, err := os.Open(path)
@@ -278,6 +279,11 @@ func parseContractFile(path string) (*PkgContracts, error) {
 			}
 		case "may_panic":
 			cur.MayPanic = true
+			last = nil
+		case "nooverflow":
+			// every integer +, -, *, unary minus, signed division and integer conversion in the body
+			// must be exact (an obligation of class safe:overflow each)
+			cur.NoOverflow = true
 			last = nil
 		case "trusted":
 			cur.Trusted = true
